@@ -285,5 +285,12 @@ def t_register_unbounded():
             I.require(N == 0, "empty_slot_written_only_for_a_signature_without_entries")
         else:
             I.require(N > 0, "empty_slot_written_for_a_signature_without_entries")
+        # guarantee side of the premise of MultiTypeMap.mro (mode U) "a handler occurs at most once in a per-entry table":
+        # with pairwise distinct keyword names (Python rejects duplicate parameter names) one registration files the handler
+        # under ONE class per table.  Proved from the post above, not from the loop.
+        j1, j2 = z3.Ints("j1 j2")
+        c2 = z3.Const("c2", TyS)
+        I.assume(z3.ForAll([j1, j2], z3.Implies(z3.And(0 <= j1, j1 < N, 0 <= j2, j2 < N, is_kw(j1), is_kw(j2), kwname(j1) == kwname(j2)), j1 == j2)))
+        I.require(z3.ForAll([k, c, c2], z3.Implies(z3.And(t.reg(k, c), t.reg(k, c2)), c == c2)), "one_registration_files_the_handler_under_at_most_one_class_per_table")
 
     return w, thunk, {"timeout_ms": 20000, "fail_fast": False}
